@@ -180,6 +180,10 @@ class OwnProfile(Profile):
 
     def gen(self, w):
         r = w.rs.ops
+        while w.queue:
+            op = w.queue.pop(0)
+            if self._ready(w, op):
+                return op
         fam = self.choose_family(w, r, w.cfg["weights"])
         # bootstrap: make sure there is something to work with
         if len(w.m.nodes) < 4:
@@ -235,6 +239,38 @@ class OwnProfile(Profile):
             from . import gen_misc
 
             return gen_misc.gen_bytes(w, r)
+        if fam == "aux":
+            from . import ops_aux
+
+            return ops_aux.gen_aux(w, r)
+        if fam == "persist":
+            from . import gen_persist
+
+            x = r.random()
+            if x < 0.5:
+                op = gen_persist.gen_save(w, r)
+                if op is not None and r.random() < w.cfg.get("p_heal", 0.7):
+                    hs = gen_persist.heal_ops(w, op["ir"])
+                    if hs:
+                        w.queue.extend(hs[1:] + [op])
+                        return hs[0]
+                return op
+            if x < 0.8:
+                return gen_persist.gen_load(w, r)
+            return gen_persist.gen_restart(w, r)
+        if fam == "peer":
+            from . import gen_persist
+
+            op = gen_persist.gen_peer_write(w, r)
+            if op is not None:
+                hs = gen_persist.heal_ops(w, op["from"])
+                ld = gen_persist.gen_load(w, r)
+                follow = [op]
+                w.next_id["twin"] += 1
+                follow.append({"op": "load", "path": op["path"], "as": "P%d" % w.next_id["twin"], "flavor": r.choice(["path", "stream"])})
+                w.queue.extend((hs + follow)[1:])
+                return (hs + follow)[0]
+            return None
         return self.gen_more(w, r, fam)
 
     def gen_more(self, w, r, fam):
@@ -604,3 +640,199 @@ class C19(OwnProfile):
 
     def nontrivial(self, w):
         return (w.counters["probe:bi_size_set"] + w.counters["probe:init_size_set"]) > 0 and w.counters["probe:block_beyond_bytes"] > 0
+
+
+# ---------------------------------------------------------------------------
+# persistence profiles
+
+PERSIST_BASE = {
+    "new": 7.0,
+    "setparent": 2.0,
+    "setop": 1.5,
+    "listop": 0.7,
+    "setattr": 3.0,
+    "attr_index": 1.0,
+    "se": 2.0,
+    "cfg": 2.0,
+    "aux": 2.5,
+    "bytes": 0.7,
+    "persist": 3.0,
+    "peer": 0.6,
+}
+
+
+class PersistProfile(OwnProfile):
+    name = "persist"
+    base = PERSIST_BASE
+    keep = ("new", "persist")
+    chunk = 10
+    runs_quick = 2500
+    runs_thorough = 60000
+    timeout_owner = ("C01", "C17")
+
+    def config(self, r):
+        c = super().config(r)
+        c["steps"] = r.randrange(40, 110)
+        c["boot"] = r.choice([8, 15, 25, 35])
+        c["weights"] = swarm_weights(r, self.base, keep=self.keep, off_p=0.2)
+        c["p_heal"] = r.choice([0.5, 0.8, 1.0])
+        c["p_boundary"] = r.choice([0.05, 0.15, 0.3])
+        c["aux_depth"] = r.choice([1, 2, 3, 4])
+        c["prefer_local_refs"] = True
+        c["max_ir"] = 2
+        c["p_ctor_parent"] = r.choice([0.8, 0.95])
+        c["p_attached_parent"] = r.choice([0.7, 0.9])
+        c["p_detach"] = r.choice([0.05, 0.15])
+        c["kind_weights"] = {"ir": 0.5, "mod": 1.0, "sec": 1.2, "bi": 1.5, "cb": 1.5, "db": 1.0, "px": 0.8, "sym": 1.5}
+        return c
+
+    def gen(self, w):
+        if w.step < w.cfg.get("boot", 0) and not w.queue:
+            r = w.rs.ops
+            for _ in range(4):
+                op = gen_own.gen_new(w, r)
+                if op is not None and self._ready(w, op):
+                    return op
+        return super().gen(w)
+
+    def after(self, w, op, out):
+        if op["op"] in ("load", "restart") and out is not None:
+            w.counters["probe:gen_after_load"] = 1
+            w.mut_after_load = 0
+        elif op["op"] == "save":
+            if getattr(w, "mut_after_load", 0) > 0 and w.counters["probe:gen_after_load"]:
+                w.counters["probe:save_after_mutation_after_load"] += 1
+        elif out is not None and op["op"] not in ("lookup", "aux_read"):
+            w.mut_after_load = getattr(w, "mut_after_load", 0) + 1
+
+    def nontrivial(self, w):
+        return w.counters["probe:loads_checked"] > 0 and w.counters["probe:save_after_mutation_after_load"] > 0
+
+    def extra_coverage(self, results, tot):
+        return {"persistence": {k[6:]: v for k, v in tot.items() if k.startswith("probe:") and ("save" in k or "load" in k or "restart" in k or "peer" in k or "aux" in k)}}
+
+    def assumptions(self):
+        return Profile.assumptions(self) + [
+            "refcodec (written from AuxData.hpp / AuxData.md) and the peer's field-by-field message builder are trusted stand-ins for 'another GTIRB implementation'",
+            "fault-free disk configuration: closing the file makes all written bytes durable",
+        ]
+
+
+@profile
+class C01(PersistProfile):
+    prop = "C01"
+    rule = (
+        "one evaluation = one seeded edit history with save / load (twin IR) / crash-restart (drop every object, reload the "
+        "latest file of every saved IR; model rolls back to the snapshot taken at that save) placed by the scheduler, over up "
+        "to several generations, through the path API and the stream API of a simulated disk. At every load of a file saved "
+        "from a self-contained state: loaded IR == snapshot model (every node, attribute, containment, payloads, expressions, "
+        "edges, AuxData type names and decoded values), deep_eq both ways with the live original, re-save gives the same "
+        "content. Non-trivial: >=1 checked load and >=1 save that followed a mutation that followed a load; distinct by "
+        "op-kind sequence hash."
+    )
+
+
+@profile
+class C02(PersistProfile):
+    prop = "C02"
+    base = dict(PERSIST_BASE, peer=2.5)
+    keep = ("new", "persist", "peer")
+    rule = (
+        "writer direction: at every save the bytes on the simulated disk are parsed with the message classes generated from "
+        "/repo/proto and compared field by field with the model (header, uuids, module list order, enum numbers by schema "
+        "name, has_address, one-ofs, attribute flags, cfg.vertices == all CFG nodes, edges with label presence). Reader "
+        "direction: a foreign peer (fills the generated messages field by field, never gtirb's writer; permuted repeated "
+        "fields, explicit defaults, stale address with has_address=false, every enum constant of the schema swept by number) "
+        "writes files that gtirb loads; loaded attributes must equal the peer's spec. Non-trivial: >=1 save checked and >=1 "
+        "peer file loaded; distinct by op-kind sequence hash."
+    )
+
+    def nontrivial(self, w):
+        return w.counters["probe:saves"] > 0 and w.counters["probe:peer_files"] > 0 and w.counters["probe:loads_checked"] > 0
+
+
+@profile
+class C09(PersistProfile):
+    prop = "C09"
+    base = dict(PERSIST_BASE, peer=1.5, aux=3.0, cfg=3.0, se=3.0)
+    rule = (
+        "at every load (own or peer file, twin or restart) the containment walk gives uuid -> object; symbol referents, entry "
+        "points, edge endpoints (via ir.cfg, out/in_edges and block incoming/outgoing_edges) and expression symbols must be "
+        "'is'-identical to the walked objects; AuxData UUID/Offset entries are read at a scheduled later time and must be the "
+        "attached node object or a plain UUID. Non-trivial: >=1 load checked with the IR holding >=1 reference; distinct by "
+        "op-kind sequence hash. (Negative direction - dangling / ill-typed reference -> DeserializationError - is decided by "
+        "the fault enumeration shared with C17.)"
+    )
+
+    def nontrivial(self, w):
+        return w.counters["c09:loads_checked"] > 0
+
+
+AUX_BASE = {"new": 3.0, "setparent": 1.0, "setattr": 0.5, "aux": 10.0, "persist": 5.0, "peer": 1.5, "setop": 0.5}
+
+
+class AuxProfile(PersistProfile):
+    name = "aux"
+    base = AUX_BASE
+    keep = ("new", "aux", "persist")
+
+    def config(self, r):
+        c = super().config(r)
+        c["steps"] = r.randrange(40, 100)
+        c["boot"] = r.choice([4, 8, 12])
+        c["kind_weights"] = {"ir": 0.8, "mod": 1.5, "sec": 0.6, "bi": 0.6, "cb": 0.8, "db": 0.5, "px": 0.5, "sym": 0.8}
+        c["aux_depth"] = r.choice([1, 2, 3, 4])
+        return c
+
+    def nontrivial(self, w):
+        return w.counters["probe:aux_saved_encoded"] + w.counters["probe:aux_saved_untouched"] > 0 and w.counters["probe:loads_checked"] > 0
+
+
+@profile
+class C14(AuxProfile):
+    prop = "C14"
+    rule = (
+        "one evaluation = one seeded history over AuxData tables of known, unknown and partially unknown type names "
+        "(incl. peer-written non-canonical but decodable encodings and arbitrary bytes for unknown parts): {leave, read, "
+        "mutate in place, assign data, assign type_name, delete} placed by the scheduler relative to save / load / "
+        "crash-restart over several generations. Per table a small state machine (raw -> read/mutated/assigned/retyped); "
+        "oracle on the message taken from the simulated disk: type name current; untouched -> bytes identical; unknown "
+        "name reached -> bytes identical even after a read; otherwise reference-decoded bytes == current value. "
+        "Non-trivial: >=1 table judged at a save and >=1 checked load in the run; distinct by op-kind sequence hash."
+    )
+
+
+@profile
+class C07(AuxProfile):
+    prop = "C07"
+    base = dict(AUX_BASE, aux=12.0, setparent=2.5, setop=1.0)
+    rule = (
+        "one evaluation = one seeded history that creates tables of random type trees (every leaf type at both bounds, "
+        "Unicode strings, NaN/inf/-0.0, nesting to depth 4, every variant alternative), sends them through 1-4 save / "
+        "restart generations (also written by the peer), and reads them at scheduler-chosen times relative to "
+        "attach/detach/move operations: value equality (doubles bit for bit, float32 NaN as NaN), exact consumption "
+        "(reference decode of the written bytes consumes all of them), UUID/Offset entries naming a node attached to the "
+        "loading IR at decode time are that object, others plain UUIDs. Honest scoping: decode(encode(v)) == v is a pure "
+        "function; the simulator contributes the lazy-decode schedule, the persistence path and the peer. Non-trivial as C14."
+    )
+
+    def nontrivial(self, w):
+        return w.counters["probe:aux_lazy_decode"] > 0 and AuxProfile.nontrivial(self, w)
+
+
+@profile
+class C08(AuxProfile):
+    prop = "C08"
+    base = dict(AUX_BASE, peer=4.0)
+    keep = ("new", "aux", "persist", "peer")
+    rule = (
+        "two-party setting: (a) every table gtirb writes to the simulated disk is decoded by the reference codec (written "
+        "from AuxData.hpp) and must give the model value; for types without set/mapping the bytes must equal the reference "
+        "encoding byte for byte; (b) every table the peer wrote (reference encoder, permuted element order, repeated "
+        "elements) is decoded by gtirb at a scheduled time and must give the model value. The Java codec is not run "
+        "(covered by reading only; see DESIGN.md). Non-trivial: >=1 table byte-compared or reference-decoded at a save and >=1 "
+        "peer-written table read; distinct by op-kind sequence hash."
+    )
+
+    def nontrivial(self, w):
+        return w.counters["probe:aux_saved_encoded"] > 0 and w.counters["probe:peer_files"] > 0
